@@ -68,11 +68,35 @@ MuxServersLeak(doc, req, obs) ==
    /\ HasOverride(doc) /\ MuxAsPinned(doc, req, obs)
    /\ Gist(MuxObs(doc, req, FALSE, TRUE)) # Gist(CurMuxObs(doc, req))
 
+(* the legacy router did what its model of the current code does (route or route error) *)
+LegacyAsModel(doc, req, obs) ==
+   LET p == CurLegacyObs(doc, req) IN
+   /\ Gist(obs) = Gist(p)
+   /\ obs.k = "route" => obs.m = p.m /\ obs.op = p.op /\ SameParams(obs.params, p.params)
+
+(* F-C09-7 / F-C09-8: what legacy FindRoute matches is not the wire path.  The           *)
+(* observation is the model's, and the model that is handed the wire path (no query, no  *)
+(* fragment, not decoded) answers differently.                                           *)
+(*  F-C09-7 (servers declared): Servers.MatchURL cuts url.String() at the first "?"      *)
+(*    only; a fragment that follows the path directly ("/v1/pets/42#top") stays glued to *)
+(*    the last segment: id = "42#top", the literal /pets/mine#top goes to /pets/{id}.    *)
+(*  F-C09-8 (no servers): FindRoute matches url.Path, the DECODED path: "/a/x%2Fy" is    *)
+(*    split into three segments, the literal template "/a%20b" never matches "/a%20b".   *)
+LegacyUrlView(doc, req, obs) ==
+   /\ obs.k \in {"route", "rerr"} /\ LegacyAsModel(doc, req, obs)
+   /\ LegacyObs(doc, req, FALSE, FALSE, TRUE, TRUE) # CurLegacyObs(doc, req)
+LegacyFragment(doc, req, obs) == Len(doc.servers) > 0 /\ FragGlued(req.u) /\ LegacyUrlView(doc, req, obs)
+LegacyDecoded(doc, req, obs) ==
+   /\ Len(doc.servers) = 0 /\ \E i \in 1..Len(req.u.path) : IsEnc(req.u.path[i])
+   /\ LegacyUrlView(doc, req, obs)
+
 (* F-C09-6: the legacy router never looks at path-level servers.  The observation is     *)
 (* correct (or deviates in one of the other legacy classes) for the document without     *)
 (* its path-level servers, and the document has some.                                    *)
 LegacyClass(doc, req, obs) ==
    IF LegacyUnknownMethodPanic(doc, req, obs) THEN "legacy_unknown_method_panic"
+   ELSE IF LegacyFragment(doc, req, obs) THEN "legacy_fragment_glued_to_path"
+   ELSE IF LegacyDecoded(doc, req, obs) THEN "legacy_noserver_decoded_path"
    ELSE IF obs.k = "route" /\ HasTempl(doc, obs.path) /\ LegacyEmptyBinding(doc, req, obs) THEN "legacy_empty_binding"
    ELSE IF obs.k = "route" /\ HasTempl(doc, obs.path) /\ LegacyTrailingSlash(doc, req, obs) THEN "legacy_trailing_slash"
    ELSE "none"
